@@ -28,10 +28,15 @@ def run(ctx, R):
     mir = F.mir(nx)
     g = CFG(mir)
     resets = set(g.call_blocks(lambda t: callee_of(t).endswith("Ball::reset")))
-    appends = g.call_blocks(lambda t: re.search(r"heap::Heap::append$", callee_of(t)) is not None)
+    raw_appends = g.call_blocks(lambda t: re.search(r"heap::Heap::append$", callee_of(t)) is not None)
+    aligned = g.call_blocks(lambda t: callee_of(t).endswith("Ball::copy_and_align_to"))
+    appends = aligned or raw_appends
     alloc_fail = set(g.call_blocks(lambda t: callee_of(t).endswith("AllocError::resource_error_offset") or callee_of(t).endswith("::resource_error_offset")))
     if len(appends) != 1:
-        raise AnchorLost("QueryState::next: %d Heap::append calls (the copy of the ball into the heap)" % len(appends))
+        raise AnchorLost("QueryState::next: %d copies of the ball into the heap" % len(appends))
+    R.ob("C28:ball-copied-with-alignment", len(aligned) == 1 and not raw_appends,
+         "the ball's cells are relative to the heap top at throw time (ball.boundary); next() must copy them with Ball::copy_and_align_to. A raw Heap::append "
+         "reports a wrong term (or loops) once the ball has passed through a non-matching inner catch/3", F.where(nx))
     ok, wit = g.must_pass(appends[0], resets | alloc_fail)
     R.ob("C28:report-once", ok and bool(resets),
          "after the ball's exception term has been copied out, some path returns without Ball::reset (return block %s): every later query on this "
@@ -80,7 +85,18 @@ def run(ctx, R):
     for f in fields:
         R.ob("C28:stub-frame:sets:%s" % f, ("prelude", f) in af, "allocate_stub_choice_point must initialise OrFramePrelude.%s" % f, F.where(st))
     R.ob("C28:stub-frame:becomes-b", ("st", "b") in af and ("st", "hb") in af, "the stub must become the current choice point and set hb", F.where(st))
+    # the stub's heap mark is the heap top at push time (popping it must not cut below the machine's own cells)
+    hval = [n for n in walk(F.hir(st)["body"]) if n["k"] == "Assign" and orframe.field_chain(n["lhs"])[-2:] == ["prelude", "h"]]
+    R.ob("C28:stub-frame:heap-mark-is-current-top", len(hval) == 1 and any(x["k"] == "MethodCall" and x["name"] == "cell_len" for x in walk(hval[0]["rhs"])),
+         "allocate_stub_choice_point must record h = heap.cell_len(): with h = 0 the end of a query truncates the heap over the pre-allocated "
+         "error(resource_error(memory), []) term and a later memory exhaustion throws garbage", F.where(st))
     dr = F.find_impl("QueryState", "std::ops::Drop", "drop")
+    dh = F.hir(dr)
+    uses_stub = any(x["k"] == "Field" and x["name"] == "stub_b" for x in walk(dh["body"]))
+    sets_b = any(x["k"] == "Assign" and orframe.field_chain(x["lhs"])[-2:] == ["machine_st", "b"] and any(y["k"] == "Field" and y["name"] == "stub_b" for y in walk(x["rhs"])) for x in walk(dh["body"]))
+    R.ob("C28:drop:releases-relative-to-own-stub", uses_stub and sets_b,
+         "Drop must cut back to the stub recorded for THIS query (self.stub_b) before popping: popping whatever choice point is on top leaves the stub behind "
+         "when the iterator was only partially consumed", F.where(dr))
     calls = [short(r) for _, r, _ in hir_calls(F.hir(dr)["body"])]
     R.ob("C28:drop:releases-choice-point", any(c in ("Machine::trust_me", "Machine::trust_me_epilogue") for c in calls) or any("truncate" in c for c in calls),
          "dropping the iterator must pop the query's choice point; calls %s" % calls, F.where(dr))
